@@ -121,6 +121,12 @@ def main():
         cov["trusted_base"].append("tie by proof (Properties/%sb.v): the translator tools/py2jit.py + tools/gen.py (Python ast -> Jit/Lang.v terms, fail-closed, "
                                    "regenerated from /repo on every run), the interpreter Jit/Interp.v as the meaning of the translated text (floats = exact rationals), "
                                    "partial correctness only (OutOfFuel allowed) unless the theorem name says total" % pid)
+    if os.path.exists(os.path.join(C.COQ, "Properties", pid + "c.v")):
+        cov["checker_cmd"] += f" ; coqc -Q . Verif Properties/{pid}c.v"
+        cov["trusted_base"].append("tie of the Python glue by proof (Properties/%sc.v): the translator tools/py2glue.py + tools/gen_glue.py (Python ast -> Glue/Lang.v terms, "
+                                   "fail-closed whitelist of routines, regenerated from /repo on every run; skipped statements, assumed tests and declared identities listed in "
+                                   "coq/Gen/glue.json: numpy backend, time_units='s' on rounded input, float literals = times in ticks), the evaluator Glue/Interp.v as the meaning of the "
+                                   "NumPy primitives (floats = exact rationals, np.sort/searchsorted idealised), both exercised against the real routines by harness/gluecmp.py" % pid)
     if chk is not None:
         cov["coqchk"] = {"ok": chk["ok"], "axioms": chk["axioms"]}
         cov["trusted_base"].append("coqchk -o (independent checker) accepted the property file and its dependencies; axioms it lists: %s" % (chk["axioms"] or "none"))
